@@ -92,15 +92,25 @@ func (u *Unmarshaler) fillMap(fieldType reflect.Type, value reflect.Value,
 		return errValueNotSettable
 	}
 
-	fieldKeyType := fieldType.Key()
-	fieldElemType := fieldType.Elem()
-	targetValue, err := u.generateMap(fieldKeyType, fieldElemType, mapValue, fullName)
+	// the member may be a pointer to a map
+	derefedType := Deref(fieldType)
+	if derefedType.Kind() != reflect.Map {
+		return errTypeMismatch
+	}
+
+	targetValue, err := u.generateMap(derefedType.Key(), derefedType.Elem(), mapValue, fullName)
 	if err != nil {
 		return err
 	}
 
-	if !targetValue.Type().AssignableTo(value.Type()) {
+	if !targetValue.Type().AssignableTo(derefedType) {
 		return errTypeMismatch
+	}
+
+	if fieldType.Kind() == reflect.Ptr {
+		target := reflect.New(derefedType).Elem()
+		target.Set(targetValue)
+		targetValue = convertTypeOfPtr(fieldType, target)
 	}
 
 	value.Set(targetValue)
@@ -385,12 +395,18 @@ func (u *Unmarshaler) generateMap(keyType, elemType reflect.Type, mapValue any,
 				return emptyValue, errTypeMismatch
 			}
 
-			innerValue, err := u.generateMap(elemType.Key(), elemType.Elem(), keythMap, mapFullName)
+			innerValue, err := u.generateMap(dereffedElemType.Key(), dereffedElemType.Elem(), keythMap, mapFullName)
 			if err != nil {
 				return emptyValue, err
 			}
 
-			targetValue.SetMapIndex(key, innerValue)
+			if elemType.Kind() == reflect.Ptr {
+				target := reflect.New(dereffedElemType).Elem()
+				target.Set(innerValue)
+				innerValue = target
+			}
+
+			SetMapIndexValue(elemType, targetValue, key, innerValue)
 		default:
 			switch v := keythData.(type) {
 			case bool:
